@@ -78,6 +78,9 @@ pub enum Op {
 
 #[derive(Clone, Debug, Serialize, Deserialize)]
 pub struct ReaderPlan {
+    /// Short-read knob (0 = unlimited).
+    #[serde(default)]
+    pub max_chunk: usize,
     pub note: String,
     pub tables: Vec<Vec<TEntry>>,
     pub ops: Vec<Op>,
@@ -480,6 +483,9 @@ pub fn exec_reader_plan(plan: &ReaderPlan, st: &mut Stats) -> Option<Violation> 
         desynced: false,
     };
     pipe.lock().unwrap().budget = 1_000_000;
+    if plan.max_chunk > 0 {
+        pipe.lock().unwrap().max_chunk = plan.max_chunk;
+    }
     let r = guarded(|| {
         ctx.run(&mut reader, &plan.ops, false, false);
     });
@@ -679,7 +685,7 @@ fn sweep_plan(phase: u32, src: Vec<u8>, note: &str) -> ReaderPlan {
     }
     ops.push(Op::StartCode { in_error: false });
     ops.push(Op::StartCode { in_error: true });
-    ReaderPlan { note: format!("sweep: phase {phase}, {note}"), tables: vec![], ops }
+    ReaderPlan { max_chunk: 0, note: format!("sweep: phase {phase}, {note}"), tables: vec![], ops }
 }
 
 impl Property for C14 {
@@ -716,7 +722,7 @@ impl Property for C14 {
             let more = gen_ops(rng, &mut budget, 0, ntables, true, &mut src);
             ops.extend(more);
         }
-        ReaderPlan { note: format!("{} source bytes, {} tables", nsrc, ntables), tables, ops }
+        ReaderPlan { max_chunk: *rng.pick(&[0usize, 0, 1, 2, 3]), note: format!("{} source bytes, {} tables", nsrc, ntables), tables, ops }
     }
     fn execute(plan: &ReaderPlan, st: &mut Stats) -> Option<Violation> {
         st.sample(|| json!({"note": plan.note, "ops": plan.ops.iter().take(12).collect::<Vec<_>>()}));
@@ -840,7 +846,7 @@ impl Property for C14 {
                     // a final verifying read shows where the reader ended up
                     ops.push(Op::Peek { ty: Ty::U16, n: 16 });
                     ops.push(Op::Read { ty: Ty::U8, n: 2 });
-                    v.push(ReaderPlan { note: format!("enumeration: source {si}, phase {phase}, sequence #{code}"), tables: vec![], ops });
+                    v.push(ReaderPlan { max_chunk: 0, note: format!("enumeration: source {si}, phase {phase}, sequence #{code}"), tables: vec![], ops });
                 }
             }
         }
